@@ -277,6 +277,17 @@ let handle_op (h : hist) (line : string) =
     (* C09 / C19: a fallible call never panics; an infallible one panics only with oom *)
     if impl_panic && (mi.fallible || not impl_oom) then
       report_spec ~prop:"C09" ~pred:"no_panic" ~detail:ires;
+    (* C19: a request no machine can satisfy (2^47 bytes and more: beyond the user address space the
+       drivers run in and beyond what the tracking allocator ever grants) ends in an error or, for an
+       infallible method, in a panic; it is never granted, and a fallible method does not panic over it *)
+    (let req_size = (match kind, args with
+         | "alloc", sz :: _ -> (try Some (Z.of_string sz) with _ -> None)
+         | _ -> None) in
+     match req_size with
+     | Some sz when Z.geq sz (Z.shift_left Z.one 47) ->
+       if impl_ok then report_spec ~prop:"C19" ~pred:"impossible_size_refused" ~detail:ires
+       else if impl_panic && mi.fallible then report_spec ~prop:"C19" ~pred:"impossible_size_is_an_error_not_a_panic" ~detail:ires
+     | _ -> ());
     (* C11: after a failed initialiser that allocated nothing, the same layout is served
        from the space that was reserved for it: no request to the global allocator *)
     if kind = "alloc" && List.mem "probe_c11" args && (o.reqs <> [] || not impl_ok) then
